@@ -167,7 +167,8 @@ class Repo:
             self._index(mod, mod.tree.body, prefix=name, cls=None, parent=None)
 
     REWRITTEN_AT = 8        # statements of a function that the reference tree does not have ...
-    REWRITTEN_FRAC = 0.0    # ... and the share of the reference version's statements that number has to reach
+    REWRITTEN_FRAC = 0.0    # ... or, for a short function, REWRITTEN_SMALL or more that are this share of the reference version's statements
+    REWRITTEN_SMALL = 4
 
     def rewritten(self, construct: str) -> Optional[str]:
         """Has the function `construct` names (or lies in) been rewritten since the reference tree?  Returns the reason, or None.
@@ -249,8 +250,9 @@ class Repo:
         import math, os
         at = int(os.environ.get('FSA_REWRITTEN_AT', self.REWRITTEN_AT))
         frac = float(os.environ.get('FSA_REWRITTEN_FRAC', self.REWRITTEN_FRAC))
-        if n >= max(at, math.ceil(frac * len(base[q]))):
-            return f'{n} of its {len(cur)} statements are not in the reference tree'
+        small = int(os.environ.get('FSA_REWRITTEN_SMALL', self.REWRITTEN_SMALL))
+        if n >= at or (frac > 0 and n >= small and n >= math.ceil(frac * len(base[q]))):
+            return f'{n} of its {len(cur)} statements are not in the reference tree (which has {len(base[q])})'
         # calls of package functions that the reference tree does not have
         fi = self.functions.get(q)
         mine = {k.rsplit('.', 1)[-1] for k in self.fingerprints if k not in base}
